@@ -648,7 +648,24 @@ impl<'a> IrCodegen<'a> {
             for path in module_paths {
                 let path_name = path.join("_");
                 if path_name == *name {
-                    let mut lowering = AstLowering::new();
+                    // Lower the module with the type checker's output, like the entry file: without it constructs whose
+                    // lowering depends on types (static calls `Type.method()`, assignment vs. new binding, numeric
+                    // promotions) are emitted differently in an imported module than in the entry file.
+                    let type_info = {
+                        use crate::frontend::typechecker::TypeChecker;
+                        let mut tc = TypeChecker::new();
+                        let others: Vec<(&str, &Program)> = self
+                            .dependency_modules
+                            .iter()
+                            .filter(|(other, _)| other != name)
+                            .map(|(other, other_ast)| (*other, *other_ast))
+                            .collect();
+                        tc.check_with_imports(ast, &others).ok().map(|()| tc.type_info().clone())
+                    };
+                    let mut lowering = match type_info {
+                        Some(info) => AstLowering::new_with_type_info(info),
+                        None => AstLowering::new(),
+                    };
                     let ir = lowering.lower_program(ast)?;
                     let use_emit_service = env::var("INCAN_EMIT_SERVICE").ok().as_deref() == Some("1");
                     let module_code = if use_emit_service {
